@@ -546,3 +546,9 @@ def select_for_mode(case, mode, tier):
     if len(case["col"]) > 12:
         return n % 10 == 0
     return n % (4 if mode == "nojit" else 6) == 0
+
+
+
+# the translated kernel of this property (Gen/Kernels.lean) is run against the real compiled kernel as well
+from checks.harness import genkernels  # noqa: E402
+genkernels.install(globals(), "C14")
